@@ -1003,3 +1003,82 @@ def c07_s8(ctx):
         else:
             yield bad("C07-S8", key, at(f, s["span"]["line"]), "%s narrows a %s to %s and can truncate: an offset / length / size beyond %s wraps silently" % (txt, frm, to, to))
     yield ok("C07-S8", "cfdp-daemon:narrowing-casts", "%d functions" % len(fns), "%d narrowing integer casts" % n, nontrivial=(n == 0))
+
+
+# ================================================================ C08-N8
+@rule("C08", "C08-N8", 2, "a prompt solicits a NAK only when it asks for one: where the pending prompt is answered, the NAK queue is refreshed and NAKs are sent only on the Nak arm of the prompt's kind")
+def c08_n8(ctx):
+    from common import val_in
+
+    fns = impl_fns(ctx, RECV)
+    n = 0
+    for f in fns:
+        eb = ExprBuilder(ctx.prog, f)
+        takes = [b for b, t in f.all_calls() if (callee_name(eb.call(b, t)) or "").endswith("Option::take") and "self.prompt" in expr_str(eb.call(b, t)[3][0])]
+        if not takes:
+            continue
+
+        def track(key):
+            return key[0] == "val" and key[1].endswith("nak_or_keep_alive")
+
+        fl = Flow(ctx.prog, ctx.mods, f, track, user_stop=True)
+        sites = [(b, j, s["span"]["line"], "naks <- ..") for _f, b, j, s, ps in field_writes([f], "self.naks") if ps == "self.naks"]
+        sites += [(b, -1, t["span"]["line"], "send_naks") for _f, b, t, d, r in call_sites([f], ends("RecvTransaction::send_naks"), ctx.prog)]
+        for b, j, line, what in sites:
+            n += 1
+            key = "%s:%s" % (f.name, what) + ("#%d" % n if n > 2 else "")
+            worlds = fl.at_stmt(b, j) if j >= 0 else fl.at_term(b)
+            good = bool(worlds) and all(any(k[0] == "val" and k[1].endswith("nak_or_keep_alive") and pos and vals == frozenset(["Nak"]) for k, (pos, vals) in w) for w in worlds)
+            if good:
+                yield ok("C08-N8", key, at(f, line), "only on the Nak arm of the prompt")
+            else:
+                yield bad("C08-N8", key, at(f, line), "%s while answering a prompt is not confined to the Nak arm: a keep-alive prompt makes the receiver send NAKs it was not asked for (under the deferred procedure, before EOF)" % what)
+    if n == 0:
+        raise Anchor("C08-N8", "the function answering self.prompt (prompt.take())")
+
+
+# ================================================================ C08-N9
+DELAYED_OK = ("push", "drain", "iter", "iter_mut", "len", "is_empty", "first", "last", "deref", "as_slice", "clear", "retain")
+
+
+@rule("C08", "C08-N9", 3, "a pending delayed gap check is never re-timed or re-aimed: the list of delayed checks is only appended to (a freshly started counter with the gap's own window), polled and drained on expiry")
+def c08_n9(ctx):
+    fns = impl_and_closures(ctx, RECV)
+    n = 0
+    cnt = {}
+    for f in fns:
+        eb = ExprBuilder(ctx.prog, f)
+        ebu = ExprBuilder(ctx.prog, f, user_stop=True)
+        for b, t in f.all_calls():
+            e = eb.call(b, t)
+            if e[0] != "call" or not e[3]:
+                continue
+            if sstr(e[3][0]) != "self.delayed_nack_timers":
+                continue
+            last = (callee_name(e) or "").split("::")[-1]
+            if last in ("deref", "deref_mut", "as_slice", "as_mut_slice"):
+                continue  # the view the next call works on; that call is what is classified
+            n += 1
+            fname = f.name if f.kind != "Closure" else short(f.root or f.norm).split("::")[-1]
+            base = "%s:delayed_checks.%s" % (fname, last)
+            cnt[base] = cnt.get(base, 0) + 1
+            key = base + ("#%d" % cnt[base] if cnt[base] > 1 else "")
+            if last in ("clear", "retain") :
+                yield bad("C08-N9", key, at(f, t["span"]["line"]), "pending delayed checks are dropped by %s: a gap detected earlier is never asked for" % last)
+            elif last in DELAYED_OK:
+                yield ok("C08-N9", key, at(f, t["span"]["line"]), last)
+            else:
+                yield bad("C08-N9", key, at(f, t["span"]["line"]), "a pending delayed check is edited through %s (re-timed or its window changed): the gap it stands for is requested later than its own delay, or not at all" % last)
+        # entries reached through iter_mut(): only polled
+        for b, t in f.all_calls():
+            eu = ebu.call(b, t)
+            if eu[0] != "call":
+                continue
+            cal = callee_name(eu) or ""
+            if cal.startswith("cfdp_daemon::timer::Counter::") and eu[3] and ("delayed_nack_timers" in expr_str(ebu.call(b, t)[3][0]) or "delayed_nack_timers" in expr_str(ExprBuilder(ctx.prog, f).call(b, t)[3][0])):
+                last = cal.split("::")[-1]
+                if last not in ("timeout_occurred", "until_timeout", "limit_reached"):
+                    n += 1
+                    yield bad("C08-N9", "%s:entry.%s" % (f.name, last), at(f, t["span"]["line"]), "a pending delayed check's counter is %s-ed" % last)
+    if n < 3:
+        raise Anchor("C08-N9", "uses of RecvTransaction.delayed_nack_timers")
